@@ -7,7 +7,8 @@ import ast
 from ..cfg import Oracle, build_cfg
 from ..index import AnalysisError, FuncInfo, Repo, UNKNOWN, norm, unparse
 from ..report import Ctx
-from ..util import Facts, arg, callee_attr, calls_in_node, cfg_nodes_with_call
+from ..terms import NONE, Evaluator, const, evaluator, show
+from ..util import Facts, arg, callee_attr, calls_in_node, cfg_nodes_with_call, xtext
 from .C20 import check_explicit_id
 
 BLOCKING = {"wait", "get", "waitfinish", "waitall", "join", "receive", "waitclose", "acquire", "readline"}
@@ -45,6 +46,53 @@ def derived_from_param(repo: Repo, fi: FuncInfo, e: ast.AST | None, param: str, 
     return ok
 
 
+def term_derived(t, cond, param: str) -> bool:
+    """the timeout term is built from the `timeout` parameter and constants only; None only where `timeout is None`"""
+    P = ("sym", param)
+    if t == P:
+        return True
+    if t[0] == "const":
+        if t[1] is None:
+            return (("cmp", "is", P, NONE), True) in cond
+        return not isinstance(t[1], bool)
+    if t[0] == "bin":
+        return term_derived(t[2], cond, param) and term_derived(t[3], cond, param)
+    if t[0] == "ite":
+        return term_derived(t[2], list(cond) + [(t[1], True)], param) and term_derived(t[3], list(cond) + [(_neg(t[1]), True)] + [(t[1], False)], param)
+    return False
+
+
+def _neg(c):
+    return ("not", c)
+
+
+def all_paths(ev: Evaluator):
+    heads = {n.id for n in ev.cfg.nodes if n.kind in ("test", "for") and isinstance(n.owner, (ast.While, ast.For))}
+    return ev.run(back_stops=heads, limit=20000)
+
+
+def call_verdicts(repo: Repo, fi: FuncInfo, oracle=None) -> dict[int, list]:
+    """id(ast.Call) -> [(event, state)] over every feasible path of fi (loop bodies included)"""
+    out: dict[int, list] = {}
+    ev = evaluator(repo, fi, oracle)
+    for _path, st in all_paths(ev):
+        for e in st.events:
+            if e.kind == "call":
+                out.setdefault(id(e.node), []).append((e, st))
+    return out
+
+
+def resolve_func(t, defs):
+    """AST of the local function a term denotes (def name, partial(def, ..), lambda)"""
+    if t[0] == "func":
+        return defs.get(t[1])
+    if t[0] == "lambda":
+        return defs.get(t[1])
+    if t[0] == "pcall" and t[1] in ("partial", "functools.partial") and t[2]:
+        return resolve_func(t[2][0], defs)
+    return None
+
+
 def caller_thread_functions(repo: Repo, root: str) -> dict[str, list[str]]:
     """functions executed in the calling thread: closure over *direct* calls only
     (function values handed to spawn/partial run in pool threads)."""
@@ -52,7 +100,7 @@ def caller_thread_functions(repo: Repo, root: str) -> dict[str, list[str]]:
     work = [root]
     while work:
         q = work.pop()
-        fi = repo.funcs[q]
+        fi = repo.func(q)
         for c in repo.calls_in(fi):
             for t in repo.resolve_call(c, fi):
                 if t.qualname not in seen:
@@ -77,8 +125,14 @@ def check(ctx: Ctx) -> None:
         ob.note(f"{len(funcs)} functions in the caller's thread from Group.terminate")
         ob.require("multi.safe_terminate" in funcs and "gateway.Gateway.exit" in funcs, "terminate no longer reaches Gateway.exit / safe_terminate by direct calls")
         n = 0
+        _vc: dict[str, dict] = {}
+
+        def verdicts(f: FuncInfo) -> dict:
+            if f.qualname not in _vc:
+                _vc[f.qualname] = call_verdicts(repo, f)
+            return _vc[f.qualname]
         for q, chain in sorted(funcs.items()):
-            fi = repo.funcs[q]
+            fi = repo.func(q)
             for c in repo.calls_in(fi):
                 a = callee_attr(c)
                 if a not in BLOCKING or not isinstance(c.func, ast.Attribute):
@@ -98,17 +152,30 @@ def check(ctx: Ctx) -> None:
                     to = arg(c, 1, "timeout")
                 param = "timeout"
                 bounded = to is not None and not (isinstance(to, ast.Constant) and to.value is None)
-                if bounded and q.startswith("multi."):
+                why = "has a timeout" if bounded else None
+                seen_ev = verdicts(fi).get(id(c)) if q.startswith("multi.") else None
+                if q.startswith("multi.") and seen_ev:
+                    # term-based: on every feasible path the timeout argument derives from the parameter
+                    bounded = True
+                    for (e, st) in seen_ev:
+                        tt = e.arg(1 if (a == "get" and repo.type_of(c.func.value, fi) == "FifoQueue") else 0, "timeout")
+                        if a == "get" and not e.args and "timeout" not in e.kwargs:
+                            tt = None
+                        cond = st.cond[:e.ncond]
+                        if tt is not None and term_derived(tt, cond, param):
+                            continue
+                        # completion is monotone: X.get()/X.waitfinish() after a successful bounded X.waitfinish(t)
+                        prior = [p for p in st.events if p is not e and p.kind == "call" and p.attr == "waitfinish" and p.recv == e.recv and not p.raised
+                                 and st.events.index(p) < st.events.index(e) and p.arg(0, "timeout") is not None and term_derived(p.arg(0, "timeout"), st.cond[:p.ncond], param)]
+                        if tt is None and a in ("get", "waitfinish") and prior:
+                            why = "follows a successful bounded waitfinish on the same reply"
+                            continue
+                        bounded = False
+                    if bounded and why is None:
+                        why = "timeout derived from the parameter"
+                elif bounded and q.startswith("multi."):
                     bounded = derived_from_param(repo, fi, to, param)
-                why = "timeout derived from the parameter" if bounded else None
-                if not bounded and a in ("get", "waitfinish") and not c.args and not c.keywords:
-                    # completion is monotone: X.get() after a successful bounded X.waitfinish(t)
-                    for prev in repo.calls_in(fi):
-                        if prev.lineno < c.lineno and callee_attr(prev) == "waitfinish" and unparse(prev.func.value) == recv and (prev.args or prev.keywords):
-                            tr = next((x for x in repo.ancestors(prev) if isinstance(x, ast.Try)), None)
-                            if tr is not None and any("OSError" in unparse(h.type) and isinstance(h.body[-1], (ast.Continue, ast.Return, ast.Raise)) for h in tr.handlers if h.type is not None) \
-                                    and not any(x is tr for x in repo.ancestors(c)):
-                                bounded, why = True, "follows a successful bounded waitfinish on the same reply"
+                    why = "timeout derived from the parameter" if bounded else None
                 ex = EXEMPT.get((fi.short, a))
                 if not bounded and ex:
                     # the reason must still hold: safe_terminate builds the pool without a primary thread
@@ -123,73 +190,147 @@ def check(ctx: Ctx) -> None:
         ob.require(n >= 3, f"{n} blocking calls found on the terminate path (floor 3)")
 
     with ctx.obligation("C05.b", "kill-on-timeout") as ob:
-        tk = repo.func("multi.safe_terminate.termkill")
-        cfg = build_cfg(repo, tk, Oracle(repo, tk, precise=True, call_raises=lambda c, f: [("OSError", True)] if callee_attr(c) == "get" else None))
-        gets = cfg_nodes_with_call(cfg, lambda c: callee_attr(c) == "get")
-        kills = cfg_nodes_with_call(cfg, lambda c: isinstance(c.func, ast.Name) and c.func.id == tk.params()[1])
-        ob.require(len(gets) == 1, "termkill: wait for the terminate function (reply.get) not found")
-        gc = [c for c in calls_in_node(gets[0]) if callee_attr(c) == "get"][0]
-        to = arg(gc, 0, "timeout")
-        if to is None or not derived_from_param(repo, tk, to, "timeout"):
-            ob.violation(tk, gc, "the wait for the terminate function is not bounded by the timeout: a stuck child is never killed (the kill arm is never reached)")
-        if not kills:
-            ob.violation(tk, gets[0].ast, "when the terminate function times out the kill function is not called: a stuck child is never killed", construct="no killfunc call")
-        exc_succ = [m for (m, l) in cfg.succ[gets[0].id] if l.startswith("exc:")]
-        p = cfg.must_pass(exc_succ, [cfg.exit.id, cfg.raise_exit.id], {k.id for k in kills})
-        ob.site(tk, gets[0].ast, "timeout of the terminate function leads to killfunc()")
-        if kills and (p is not None or not exc_succ):
-            ob.violation(tk, gets[0].ast, "when the terminate function times out the kill function is not called: a stuck child is never killed")
-        sp = [c for c in repo.calls_in(tk) if callee_attr(c) == "spawn" and c.args and unparse(c.args[0]) == tk.params()[0]]
-        if len(sp) != 1:
-            ob.violation(tk, tk.node, "termkill does not run the terminate function in the pool")
+        # the function safe_terminate runs in the pool for each (term, kill) pair
+        evs = evaluator(repo, fs)
+        tkname = None
+        for _p, st in all_paths(evs):
+            for e in st.calls("spawn"):
+                if len(e.args) == 3 and e.args[0][0] == "func":
+                    tkname = e.args[0][1]
+        ob.require(tkname is not None and repo.has_func(f"multi.safe_terminate.{tkname}"), "safe_terminate: the per-pair function handed to the pool (spawn(termkill, termfunc, killfunc)) not found")
+        tk = repo.func(f"multi.safe_terminate.{tkname}")
+        ob.require(len(tk.params()) == 2, "termkill does not take (termfunc, killfunc)")
+        termp, killp = tk.params()
+        evk = evaluator(repo, tk, Oracle(repo, tk, precise=True, call_raises=lambda c, f: [("OSError", True)] if callee_attr(c) == "get" else None))
+        nget = ntimeout = 0
+        for path, st in all_paths(evk):
+            sp = [e for e in st.calls("spawn") if e.args and e.args[0] == ("sym", termp)]
+            if len(sp) != 1:
+                ob.violation(tk, tk.node, "termkill does not run the terminate function in the pool")
+                continue
+            gets = [e for e in st.calls("get") if e.recv == sp[0].result]
+            if not gets:
+                if evk.cfg.nodes[path[-1][0]].kind == "return":
+                    ob.violation(tk, tk.node, "termkill does not wait for the terminate function: the kill arm is never reached", construct="no wait for termfunc")
+                continue
+            g = gets[0]
+            nget += 1
+            tt = g.arg(0, "timeout")
+            if tt is None or not term_derived(tt, st.cond[:g.ncond], "timeout"):
+                ob.violation(tk, g.node, "the wait for the terminate function is not bounded by the timeout: a stuck child is never killed (the kill arm is never reached)")
+            if g.raised:
+                ntimeout += 1
+                after = st.events[st.events.index(g) + 1:]
+                ok = any(e.kind == "call" and e.callee == killp for e in after)
+                ob.site(tk, g.node, "timeout of the terminate function leads to killfunc()", ok=ok)
+                if not ok:
+                    ob.violation(tk, g.node, "when the terminate function times out the kill function is not called: a stuck child is never killed")
+        ob.require(nget >= 1, "termkill: wait for the terminate function (reply.get) not found")
+        if ntimeout == 0:
+            ob.violation(tk, tk.node, "when the terminate function times out the kill function is not called: a stuck child is never killed", construct="no killfunc call")
         # the pairs built by Group.terminate
-        pairs = [n for n in ast.walk(ft.node) if isinstance(n, ast.Tuple) and len(n.elts) == 2 and all(isinstance(e, ast.Call) and unparse(e.func) == "partial" for e in n.elts)]
-        ob.require(len(pairs) == 1, "terminate: (partial(join_wait, gw), partial(kill, gw)) not found")
-        names = [unparse(e.args[0]) for e in pairs[0].elts]
-        ob.site(ft, pairs[0], "(term, kill) pair", pair=names)
-        fk = repo.func("multi.Group.terminate.kill")
-        fj = repo.func("multi.Group.terminate.join_wait")
-        if names != ["join_wait", "kill"]:
-            ob.violation(ft, pairs[0], "the (terminate, kill) pair is built in the wrong roles")
-        if not any(callee_attr(c) == "kill" and unparse(c.func.value).endswith("._io") for c in repo.calls_in(fk)):
-            ob.violation(fk, fk.node, "kill() does not kill the gateway's io/process")
-        jc = [callee_attr(c) for c in repo.calls_in(fj)]
-        if "join" not in jc or "wait" not in jc:
-            ob.violation(fj, fj.node, "join_wait() does not join the receiver and wait for the process")
+        evt = evaluator(repo, ft)
+        found = None
+        for _p, st in all_paths(evt):
+            for e in st.calls("safe_terminate"):
+                found = (e, st)
+        ob.require(found is not None, "safe_terminate call not found")
+        e, st = found
+        if len(e.args) < 2 or e.args[1] != ("sym", "timeout"):
+            ob.violation(ft, e.node, "terminate does not pass its timeout to safe_terminate")
+        pairs = e.arg(2, "list_of_paired_functions")
+        TOJOIN = ("sym", "self._gateways_to_join")
+        ob.require(pairs is not None and pairs[0] == "comp" and len(pairs[3]) == 1, "terminate: the list of (terminate, kill) pairs handed to safe_terminate is not a comprehension over the to-join list")
+        if pairs[3][0][1] != TOJOIN:
+            ob.violation(ft, e.node, "the exited gateways are not handed to safe_terminate")
+        elt, defs, where = pairs[2], st.defs, ft
+        if elt[0] == "fresh":
+            # the pair is built by a helper: follow it
+            mk = [x for x in st.events if x.kind == "call" and x.result == elt]
+            tgt = repo.resolve_call(mk[0].node, ft) if mk else []
+            ob.require(len(tgt) == 1, "terminate: the helper building the (terminate, kill) pair does not resolve")
+            where = repo.func(tgt[0].qualname)
+            evh = evaluator(repo, where)
+            rets = [(st2.ret, st2.defs) for _p2, st2 in all_paths(evh) if st2.ret is not None]
+            ob.require(len(rets) == 1, "terminate: pair helper has no single return value")
+            elt, defs = rets[0]
+        ob.require(elt[0] == "tuple" and len(elt) == 3, "terminate: (terminate, kill) pair not found")
+        fj, fk = resolve_func(elt[1], defs), resolve_func(elt[2], defs)
+        ob.site(where, e.node, "(term, kill) pair", pair=[show(elt[1]), show(elt[2])])
+        ob.require(fj is not None and fk is not None, "terminate: the functions of the (terminate, kill) pair do not resolve to local functions")
+
+        def io_calls(fn):
+            body = fn.body if isinstance(fn, ast.Lambda) else fn
+            return {callee_attr(c) for c in ast.walk(body) if isinstance(c, ast.Call) and isinstance(c.func, ast.Attribute) and (unparse(c.func.value).endswith("._io") or callee_attr(c) == "join")}
+        jc, kc = io_calls(fj), io_calls(fk)
+        if "kill" in jc and "kill" not in kc:
+            ob.violation(where, fj, "the (terminate, kill) pair is built in the wrong roles")
+        else:
+            if "kill" not in kc:
+                ob.violation(where, fk, "kill() does not kill the gateway's io/process")
+            if "join" not in jc or "wait" not in jc:
+                ob.violation(where, fj, "join_wait() does not join the receiver and wait for the process")
         pk = repo.func("gateway_io.Popen2IOMaster.kill")
         pw = repo.func("gateway_io.Popen2IOMaster.wait")
         ob.site(pk, None, "Popen2IOMaster.kill -> popen.kill(); wait -> popen.wait()")
-        if not any(unparse(c.func) == "self.popen.kill" for c in repo.calls_in(pk)):
-            ob.violation(pk, pk.node, "Popen2IOMaster.kill does not kill the subprocess")
-        if not any(unparse(c.func) == "self.popen.wait" for c in repo.calls_in(pw)):
-            ob.violation(pw, pw.node, "Popen2IOMaster.wait does not reap the subprocess")
-        # safe_terminate receives the timeout and the to-join list
-        stc = [c for c in repo.calls_in(ft) if isinstance(c.func, ast.Name) and c.func.id == "safe_terminate"]
-        ob.require(len(stc) == 1, "safe_terminate call not found")
-        if len(stc[0].args) < 2 or unparse(stc[0].args[1]) != "timeout":
-            ob.violation(ft, stc[0], "terminate does not pass its timeout to safe_terminate")
-        if "self._gateways_to_join" not in unparse(stc[0]):
-            ob.violation(ft, stc[0], "the exited gateways are not handed to safe_terminate")
+        for f_, meth, msg in ((pk, "self.popen.kill", "Popen2IOMaster.kill does not kill the subprocess"), (pw, "self.popen.wait", "Popen2IOMaster.wait does not reap the subprocess")):
+            evp = evaluator(repo, f_)
+            paths = list(all_paths(evp))
+            if not paths or not all(any(x.kind == "call" and x.callee == meth for x in st_.events) for _pp, st_ in paths):
+                ob.violation(f_, f_.node, msg)
 
     check_explicit_id(ctx, "C05.c")
 
     with ctx.obligation("C05.d", "exit-order") as ob:
         loops = [n for n in repo.own_nodes(ft) if isinstance(n, ast.While)]
-        ob.require(len(loops) == 1 and unparse(loops[0].test) == "self", "terminate: `while self` loop not found")
-        cfg = build_cfg(repo, ft, Oracle(repo, ft, precise=True))
-        exits = cfg_nodes_with_call(cfg, lambda c: callee_attr(c) == "exit")
-        ob.require(len(exits) == 1, "gw.exit() not found")
-        f = Facts(repo, ft, {})
-        for (t, lab) in cfg.guards(exits[0].id):
-            if t.kind == "test":
-                f.assume(t.ast, lab == "true")
-        ok = f.get("gw.id in vias") is False
-        ob.site(ft, exits[0].ast, "gateways that are someone's via are skipped until their dependants are gone", ok=ok)
-        if not ok:
-            ob.violation(ft, exits[0].ast, "a via-master can be told to exit before the gateways proxied through it")
-        adds = [c for c in repo.calls_in(ft) if callee_attr(c) == "add" and unparse(c.func.value) == "vias"]
-        if len(adds) != 1 or unparse(adds[0].args[0]) != "gw.spec.via":
-            ob.violation(ft, ft.node, "the set of via-masters is not collected from the members' specs")
+        ob.require(any(unparse(l.test) == "self" for l in loops), "terminate: `while self` loop not found")
+        evt = evaluator(repo, ft)
+        SELF = ("sym", "self")
+        exits, adds, clears = [], [], 0
+        for _p, st in all_paths(evt):
+            for e in st.events:
+                if e.kind == "call" and e.attr == "exit" and e.recv is not None and e.recv[0] == "elem":
+                    exits.append((e, st))
+                elif e.kind == "call" and e.attr == "add":
+                    adds.append((e, st))
+                elif (e.kind in ("store", "del") and e.recv == ("sym", "self._gateways_to_join")) or (e.kind == "call" and e.callee == "self._gateways_to_join.clear"):
+                    clears += 1
+        ob.require(len(exits) >= 1, "gw.exit() not found")
+
+        def via_of(member):
+            return ("attr", ("attr", member, "spec"), "via") if member[0] != "sym" else ("sym", f"{member[1]}.spec.via")
+
+        def is_via_set(V, st) -> bool:
+            if V[0] == "comp" and V[1] in ("set", "gen") and len(V[3]) == 1 and V[3][0][1] == SELF:
+                tgt = V[3][0][0]
+                return V[2] in (via_of(("bound", tgt)),)
+            if V[0] == "pcall" and V[1] in ("set", "frozenset") and len(V[2]) == 1:
+                return is_via_set(V[2][0], st)
+            if V[0] == "new" and V[2] == "set":
+                return any(a.recv == V and a.args and a.args[0][0] in ("attr", "sym") and a.args[0] == via_of(a_st_elem(a, st2)) for (a, st2) in adds)
+            return False
+
+        def a_st_elem(a, st2):
+            # the loop element the add() argument was read from
+            cand = ("sym", "?")
+            for x in st2.events:
+                if x is a:
+                    break
+                if x.kind == "assign" and x.value[0] == "elem" and x.value[1] == SELF:
+                    cand = x.value
+            return cand
+        for (e, st) in exits:
+            member = e.recv
+            ok = member[1] == SELF
+            skipped = [t for (t, v) in st.cond[:e.ncond] if v is False and t[0] == "cmp" and t[1] == "in" and t[2] == ("attr", member, "id") and is_via_set(t[3], st)]
+            ok = ok and bool(skipped)
+            ob.site(ft, e.node, "gateways that are someone's via are skipped until their dependants are gone", ok=ok)
+            if not ok:
+                collected = any(t[0] == "cmp" and t[1] == "in" and t[2] == ("attr", member, "id") for (t, v) in st.cond[:e.ncond] if v is False)
+                if collected:
+                    ob.violation(ft, e.node, "the set of via-masters is not collected from the members' specs")
+                else:
+                    ob.violation(ft, e.node, "a via-master can be told to exit before the gateways proxied through it")
         ge = repo.func("gateway.Gateway.exit")
         un = [c for c in repo.calls_in(ge) if callee_attr(c) == "_unregister"]
         ob.site(ge, un[0] if un else ge.node, "exit() unregisters the gateway from its group")
@@ -199,8 +340,7 @@ def check(ctx: Ctx) -> None:
         cs = {(callee_attr(c), unparse(c.func.value)) for c in repo.calls_in(fu)}
         if cs != {("remove", "self._gateways"), ("append", "self._gateways_to_join")}:
             ob.violation(fu, fu.node, "_unregister does not move the gateway from the member list to the to-join list")
-        cl = [n for n in repo.own_nodes(ft) if isinstance(n, ast.Assign) and "self._gateways_to_join" in unparse(n.targets[0])]
-        if not cl:
+        if not clears:
             ob.violation(ft, ft.node, "the to-join list is not cleared after the join/kill round")
         # exit(): termination message then close_write, errors swallowed
         names = [callee_attr(c) for c in repo.calls_in(ge)]
